@@ -29,6 +29,7 @@ type loopRec struct {
 	decr     *Val
 	snapshot map[string]*Val
 	heap     map[string]Tm
+	alloc    Tm
 }
 
 type frameData struct {
@@ -551,4 +552,19 @@ func (st *State) trTerms(s Sort) []Tm {
 		}
 	}
 	return out
+}
+
+// triggerRef: (TrR t) - the pattern of quantifiers over references.
+func (st *State) triggerRef(t Tm) {
+	if t.Sort != SInt {
+		return
+	}
+	key := "R:" + t.S
+	for _, o := range st.trig {
+		if o.S == key {
+			return
+		}
+	}
+	st.trig = append(st.trig, Tm{key, "ref"})
+	st.cmds = append(st.cmds, fmt.Sprintf("(assert (%s %s))", st.x.trRefUF(), t.S))
 }
